@@ -1133,3 +1133,16 @@ func (w *c09Worker) Replay(data json.RawMessage) runner.CaseResult {
 	}
 	return res
 }
+
+// reDecode decodes an encoded change pack.
+func reDecode(raw []byte) ([]*change.Change, []byte, error) {
+	var pb api.ChangePack
+	if err := proto.Unmarshal(raw, &pb); err != nil {
+		return nil, raw, err
+	}
+	p, err := converter.FromChangePack(&pb)
+	if err != nil {
+		return nil, raw, err
+	}
+	return p.Changes, raw, nil
+}
